@@ -136,17 +136,40 @@ def positions(nodes):
 
 
 class Checker:
-    def __init__(self, ctx, src, origin):
+    def __init__(self, ctx, src, origin, mode=None):
         from pedal.core.commands import clear_report, contextualize_report
         self.ctx = ctx
         self.src = src
-        self.origin = origin
         self.tree = ast.parse(src)
+        self.line_shift = 0
         clear_report()
-        contextualize_report(src)
-        self.n = 0
         Checker.made += 1
-        if Checker.made % 2 == 0:
+        if mode is None and '|mode=' in origin:
+            origin, mode = origin.split('|mode=')
+        if mode is None:
+            mode = ('plain', 'verified-first', 'plain', 'verified-first', 'second-section')[Checker.made % 5]
+        if mode == 'second-section' and ('##### Part' in src or '\r' in src or '\x0c' in src):
+            mode = 'verified-first'
+        self.origin = origin + '|mode=' + mode
+        ctx.seen('how_the_program_is_presented', mode)
+        if mode == 'second-section':
+            # the program is the second part of a sectioned file: the first part was verified (and its tree kept) by the Source
+            # tool, then the grader moved on; the questions asked now are about the part that is current, asked before (or
+            # without) another verify()
+            from pedal.source import set_source, verify, next_section
+            from pedal.core.report import MAIN_REPORT
+            whole = 'earlier = 1\nprint(earlier + earlier, earlier * 2)\nfor e in [earlier]:\n    pass\n##### Part 1\n' + src
+            set_source(whole, sections=True, independent=True)
+            verify()
+            next_section()
+            current = MAIN_REPORT.submission.main_code
+            self.tree = ast.parse(current)
+            self.line_shift = MAIN_REPORT.submission.line_offsets.get(MAIN_REPORT.submission.main_file, 0)
+            ctx.count('programs_presented_as_a_later_section')
+        else:
+            contextualize_report(src)
+        self.n = 0
+        if mode == 'verified-first':
             # the usual start of a grading script: the Source tool checks (and keeps a tree of) the submission first
             from pedal.source import verify
             verify()
@@ -204,7 +227,7 @@ class Checker:
                 elif fired and which == 'prevent' and lines:
                     line = getattr(getattr(fb, 'location', None), 'line', None)
                     ctx.count('lines_checked')
-                    if line not in lines:
+                    if line not in lines:       # (the nodes' own line numbers - in a later section, lines of the section's text)
                         ctx.violation('C08|prevent_%s|line-not-of-an-occurrence' % keyname, case, 'reported line %r, occurrences on lines %s' % (line, sorted(set(lines))[:10]))
 
     def run(self, rng, full_symbols=False):
